@@ -448,7 +448,7 @@ pub fn run(ctx: &Ctx) -> Report {
         }
         return rep;
     }
-    let n_random = ctx.budget(1500, 100_000);
+    let n_random = ctx.budget(10_000, 300_000);
     let seed = ctx.seed;
     let ids_ref = &ids;
     let mut rep = parallel(ctx.threads, |shard, n| {
